@@ -43,9 +43,9 @@ type Config struct {
 func DefaultConfig() Config {
 	return Config{
 		RepoDir: "/repo", HarnessDir: "/verif/harness", Workers: 16,
-		FeasTimeoutMs: 2000, AssertTimeoutMs: 60000, Unwind: 64, InstrBudget: 2000000,
-		MaxPaths: 200000, MaxAlloc: 4096, MaxSymIndex: 160, MapOrderFork: true,
-		Solver: "z3", MaxViolations: 1, TimeBudget: 10 * time.Minute,
+		FeasTimeoutMs: 2000, AssertTimeoutMs: 60000, Unwind: 64, InstrBudget: 30000000,
+		MaxPaths: 200000, MaxAlloc: 1 << 18, MaxSymIndex: 256, MapOrderFork: true,
+		Solver: "z3-new", MaxViolations: 1, TimeBudget: 10 * time.Minute,
 	}
 }
 
